@@ -430,6 +430,8 @@ def history_jobs(ctx):
         jobs += [({'two_mds': True, 'async': False}, h) for h in hist.sequences(two + A.CORE[:6], 2)]
         jobs += [({'two_mds': False, 'async': True}, h) for h in hist.sequences(A.CORE, 1)]
         jobs += [({'two_mds': False, 'async': False, 'periodic': True}, h) for h in hist.sequences(A.CORE[:9], 2)]
+        jobs += [({'two_mds': False, 'async': False, 'periodic': True}, h) for h in
+                 hist.sequences(['inplace-lists(N1,a)', 'inplace-lists(N1,b)', 'metric(N1,1)'], 3)]
         jobs += [(base, ['patient-new(A)', 'patient-new(B)', e]) for e in names if e.startswith(('update-context', 'patient-entity', 'delete'))]
     else:
         jobs += [(base, h) for h in hist.sequences(names, 2)]
@@ -438,6 +440,8 @@ def history_jobs(ctx):
         jobs += [({'two_mds': False, 'async': True}, h) for h in hist.sequences(A.CORE, 2)]
         jobs += [({'two_mds': False, 'async': False, 'periodic': True}, h) for h in hist.sequences(A.CORE, 2)]
         jobs += [({'two_mds': False, 'async': False, 'periodic': True}, h) for h in hist.sequences(A.CORE[:6], 3)]
+        jobs += [({'two_mds': False, 'async': False, 'periodic': True}, h) for h in
+                 hist.sequences(['inplace-lists(N1,a)', 'inplace-lists(N1,b)', 'metric(N1,1)', 'metric(N1,2)'], 4)]
         jobs += [(base, ['patient-new(A)', 'patient-new(B)', 'patient-entity-new(C)', e]) for e in names]
     return jobs
 
